@@ -316,3 +316,296 @@ silent('c04-default-negated-test', 'C04',
        (PROC, 'ProcessExecutor.__init__', 'os.cpu_count() if max_workers is None else max_workers', 'max_workers if max_workers is not None else os.cpu_count()'))
 silent('c05-logging-added', ['C05', 'C02', 'C03', 'C14'],
        (LAB, 'TaskCoordinator.run', '                            state.start_task(task)', "                            logger.debug(f'Starting {task}')\n                            state.start_task(task)"))
+
+# ------------------------------------------------------------------------------- C06
+fire('c06-save-result-not-called', 'C06', 'C06.SAVE-WRITES-BOTH',
+     (CACHE, 'BaseCache.save', 'self.save_result(storage, task, task_result.value)', 'pass'))
+fire('c06-load-other-filename', 'C06', 'C06.FILENAMES',
+     (CACHE, 'PickleCache.load_result', 'self.RESULT_FILENAME', 'self.METADATA_FILENAME'))
+fire('c06-key-is-qualname', ['C06', 'C08'], 'C06.KEY-PROV',
+     (CACHE, 'PickleCache.save_result', 'storage.file_handle(task.cache_key,', 'storage.file_handle(type(task).__qualname__,'))
+fire('c06-start-timestamp-ignored', 'C06', 'C06.META-KEYS',
+     (CACHE, 'BaseCache.build_result_meta', "start = datetime.fromisoformat(metadata['start_timestamp'])", 'start = None'))
+fire('c06-epoch-seconds', 'C06', 'C06.META-KEYS',
+     (CACHE, 'BaseCache.save', 'start_timestamp = task_result.meta.start.isoformat()', 'start_timestamp = task_result.meta.start.timestamp()'),
+     (CACHE, 'BaseCache.build_result_meta', "datetime.fromisoformat(metadata['start_timestamp'])", "datetime.fromtimestamp(metadata['start_timestamp'])"))
+fire('c06-pickle-text-mode', 'C06', 'C06.CODECS',
+     (CACHE, 'PickleCache.load_result', "mode='rb'", "mode='r'"))
+fire('c06-is-cached-other-key', ['C06', 'C08'], ['C06.ISCACHED-CHAIN', 'C06.KEY-PROV'],
+     (CACHE, 'BaseCache.is_cached', 'return storage.exists(task.cache_key)', "return storage.exists(task.cache_key.split('__')[0])"))
+fire('c06-load-drops-meta', 'C06', 'C06.LOAD-META',
+     (CACHE, 'BaseCache.load_result_with_meta', 'meta=self.build_result_meta(metadata),', 'meta=ResultMeta(start=None, duration=None),'))
+fire('c06-metadata-sorted-keys', ['C06', 'C09', 'C07'], 'C06.CODECS',
+     (CACHE, 'BaseCache.save', 'json.dump(metadata, metadata_file, indent=2)', 'json.dump(metadata, metadata_file, indent=2, sort_keys=True)'))
+silent('c06-with-inline-handle', ['C06', 'C12', 'C13', 'C08'],
+       (CACHE, 'BaseCache.save', """            metadata_file = storage.file_handle(task.cache_key, self.METADATA_FILENAME, mode='w')
+            with metadata_file:
+                json.dump(metadata, metadata_file, indent=2)""",
+        """            with storage.file_handle(task.cache_key, self.METADATA_FILENAME, mode='w') as metadata_file:
+                json.dump(metadata, metadata_file, indent=2)"""))
+silent('c06-both-sorted-keys', ['C06', 'C07', 'C09'],
+       (CACHE, 'BaseCache.save', 'json.dump(metadata, metadata_file, indent=2)', 'json.dump(metadata, metadata_file, indent=2, sort_keys=True)'),
+       (CACHE, 'BaseCache.cache_key', 'json.dumps(self.serializer.serialize_task(task))', 'json.dumps(self.serializer.serialize_task(task), sort_keys=True)'),
+       note='canonical order on both sides (this also repairs the C07.CANONICAL finding)')
+
+# ------------------------------------------------------------------------------- C07
+fire('c07-field-loop-sliced', 'C07', 'C07.FIELD-COVER',
+     (SERI, 'Serializer.serialize_task', 'for field in fields(task):', 'for field in fields(task)[:3]:'))
+fire('c07-module-dropped', 'C07', 'C07.FIELD-COVER',
+     (SERI, 'Serializer.serialize_class', "return f'{cls.__module__}.{cls.__qualname__}'", "return f'{cls.__qualname__}'"))
+fire('c07-nested-task-by-class-only', 'C07', 'C07.NEST-COVER',
+     (SERI, 'Serializer.serialize_value', 'return self.serialize_task(value)', 'return self.serialize_class(type(value))'))
+fire('c07-hash-builtin', 'C07', 'C07.NONDET-FREE',
+     (CACHE, 'BaseCache.cache_key', "hashed = hashlib.sha1(serialized_str).hexdigest()", "hashed = format(hash(serialized_str) & 0xffffffff, 'x')"))
+fire('c07-id-in-key', 'C07', 'C07.NONDET-FREE',
+     (SERI, 'Serializer.serialize_enum', "'name': value.name,", "'name': value.name, 'ident': id(value),"))
+fire('c07-context-in-key', ['C07', 'C16'], 'C07.NONDET-FREE',
+     (SERI, 'Serializer.serialize_task', "'__class__': self.serialize_class(task.__class__),", "'__class__': self.serialize_class(task.__class__), 'ctx': str(task.context),"))
+fire('c07-scalar-before-enum', 'C07', 'C07.ENUM-BEFORE-SCALAR',
+     (SERI, 'Serializer.serialize_value', """        elif isinstance(value, Enum):
+            return self.serialize_enum(value)
+        elif ((value is None)""", """        elif isinstance(value, (str, int)):
+            return value
+        elif isinstance(value, Enum):
+            return self.serialize_enum(value)
+        elif ((value is None)"""))
+fire('c07-prefix-with-dot', 'C07', 'C07.CHARSET',
+     (CACHE, None, "KEY_PREFIX = 'pickle__'", "KEY_PREFIX = 'pickle.'"))
+fire('c07-key-before-normalisation', 'C07', 'C07.KEY-ONCE',
+     (TASKS, '_task_post_init', """    for f in fields(self):
+        object.__setattr__(self, f.name, immutable_param_value(f.name, getattr(self, f.name)))
+
+    object.__setattr__(self, '_is_task', True)
+    object.__setattr__(self, 'cache_key', self._lt.cache.cache_key(self))""",
+      """    object.__setattr__(self, '_is_task', True)
+    object.__setattr__(self, 'cache_key', self._lt.cache.cache_key(self))
+    for f in fields(self):
+        object.__setattr__(self, f.name, immutable_param_value(f.name, getattr(self, f.name)))
+"""))
+fire('c07-tuple-items-filtered', 'C07', 'C07.NEST-COVER',
+     (SERI, 'Serializer.serialize_value', 'return [self.serialize_value(item) for item in value]', 'return [self.serialize_value(item) for item in value if item is not None]'))
+silent('c07-explicit-loop-fields', ['C07', 'C06'],
+       (SERI, 'Serializer.serialize_task', """            field_value = getattr(task, field.name)
+            serialized_field = self.serialize_value(field_value)
+            serialized[field.name] = serialized_field""", """            serialized[field.name] = self.serialize_value(getattr(task, field.name))"""))
+
+# ------------------------------------------------------------------------------- C08
+fire('c08-uncache-returns-after-first', 'C08', 'C08.UNCACHE',
+     (LAB, 'Lab.uncache_tasks', 'task._lt.cache.delete(self._storage, task)', 'task._lt.cache.delete(self._storage, task)\n                return'))
+fire('c08-nullcache-writes', 'C08', ['C08.NULL-INERT', 'C08.WHO-WRITES-STORAGE'],
+     (CACHE, 'NullCache.save', 'pass', "storage.file_handle('null', 'x', mode='w').close()"))
+fire('c08-run-tasks-deletes', 'C08', 'C08.WHO-WRITES-STORAGE',
+     (LAB, 'Lab.run_tasks', 'check_tasks(tasks)', 'check_tasks(tasks)\n        if bust_cache:\n            for task in tasks:\n                self._storage.delete(task.cache_key)'))
+fire('c08-fsspec-delete-non-recursive', 'C08', 'C08.STORAGE-SIBLINGS',
+     (STOR, 'FsspecStorage.delete', 'fs.rm(str(path), recursive=True)', 'fs.rm(str(path))'))
+fire('c08-fsspec-exists-skips-validation', 'C08', 'C08.STORAGE-SIBLINGS',
+     (STOR, 'FsspecStorage.exists', 'return fs.exists(str(self._key_to_path(key)))', 'return fs.exists(str(self._storage_path / key))'))
+fire('c08-nullstorage-exists-true', 'C08', 'C08.NULL-INERT',
+     (STOR, 'NullStorage.exists', 'return False', 'return True'))
+fire('c08-none-storage-local', 'C08', 'C08.NULL-INERT',
+     (LAB, 'Lab.__init__', 'storage = NullStorage()', "storage = LocalStorage('labtech_storage')"))
+silent('c08-uncache-without-guard', 'C08',
+       (LAB, 'Lab.uncache_tasks', """            if self.is_cached(task):
+                task._lt.cache.delete(self._storage, task)""", """            task._lt.cache.delete(self._storage, task)"""),
+       note='the storages guard deletion themselves')
+
+# ------------------------------------------------------------------------------- C09
+fire('c09-isinstance-guard-removed', 'C09', 'C09.LOAD-TASK-GUARDS',
+     (CACHE, 'BaseCache.load_task', 'if not isinstance(task, task_type):', 'if False:'))
+fire('c09-prefix-guard-removed', 'C09', 'C09.LOAD-TASK-GUARDS',
+     (CACHE, 'BaseCache.load_metadata', "if not key.startswith(f'{self.KEY_PREFIX}{task_type.__qualname__}'):", 'if False:'))
+fire('c09-cache-class-guard-removed', 'C09', 'C09.LOAD-TASK-GUARDS',
+     (CACHE, 'BaseCache.load_metadata', "if metadata.get('cache') != self.__class__.__qualname__:", 'if False:'))
+fire('c09-no-break', 'C09', 'C09.LOOP',
+     (LAB, 'Lab.cached_tasks', '                    tasks.append(task)\n                    break', '                    tasks.append(task)'))
+fire('c09-except-exception', 'C09', 'C09.LOOP',
+     (LAB, 'Lab.cached_tasks', 'except TaskNotFound:', 'except Exception:'))
+fire('c09-list-branch-removed', 'C09', 'C09.SER-DESER-TABLE',
+     (SERI, 'Serializer.deserialize_value', """        elif isinstance(value, list):
+            return [self.deserialize_value(item) for item in value]
+""", ""), note='regression of fix 927b767 (D6)')
+fire('c09-dict-branch-removed', 'C09', 'C09.SER-DESER-TABLE',
+     (SERI, 'Serializer.deserialize_value', """        elif isinstance(value, dict):
+            return {key: self.deserialize_value(item) for key, item in value.items()}
+""", ""), note='regression of fix 927b767 (D6)')
+fire('c09-enum-by-value', 'C09', 'C09.ROUNDTRIPS',
+     (SERI, 'Serializer.deserialize_enum', "return enum_cls[serialized['name']]", "return enum_cls(serialized['name'])"))
+fire('c09-prefix-template-differs', 'C09', 'C09.KEY-FORMAT-AGREE',
+     (CACHE, 'BaseCache.load_metadata', "f'{self.KEY_PREFIX}{task_type.__qualname__}'", "f'{self.KEY_PREFIX}{task_type.__name__}'"))
+fire('c09-result-meta-dropped', 'C09', 'C09.ROUNDTRIPS',
+     (SERI, 'Serializer.deserialize_task', 'task._set_result_meta(result_meta)', 'pass'))
+silent('c09-explicit-loop-in-list-branch', 'C09',
+       (SERI, 'Serializer.deserialize_value', 'return [self.deserialize_value(item) for item in value]', 'return list(self.deserialize_value(item) for item in value)'))
+
+# ------------------------------------------------------------------------------- C10
+fire('c10-failure-not-completed', ['C10', 'C11'], ['C10.FAIL-BRANCH', 'C11.COMPLETE-BOTH'],
+     (LAB, 'TaskCoordinator.run', 'tasks_with_removable_results = state.complete_task(task, result_meta=None)', 'tasks_with_removable_results = OrderedSet()'))
+fire('c10-handle-failure-never-raises', 'C10', 'C10.HANDLE-FAILURE-TRUTH',
+     (LAB, 'TaskCoordinator.handle_failure', 'if self.lab.continue_on_failure:', 'if True:'))
+fire('c10-raise-without-from', 'C10', 'C10.HANDLE-FAILURE-TRUTH',
+     (LAB, 'TaskCoordinator.handle_failure', 'raise lab_error from ex', 'raise lab_error'))
+fire('c10-store-in-finally', 'C10', 'C10.SUCCESS-ONLY-STORES',
+     (SER, 'SerialRunner.wait', """        else:
+            self.results_map[task] = task_result
+            yield (task, task_result.meta)""", """        else:
+            yield (task, task_result.meta)
+        finally:
+            self.results_map[task] = None"""))
+fire('c10-serial-except-exception', 'C10', 'C10.EXC-TO-FAILURE',
+     (SER, 'SerialRunner.wait', 'except BaseException as ex:', 'except Exception as ex:'))
+fire('c10-isinstance-exception', 'C10', 'C10.OUTCOME-TABLE',
+     (LAB, 'TaskCoordinator.run', 'if isinstance(res, BaseException):', 'if isinstance(res, Exception):'), note='regression of fix 8c06307 (D17)')
+fire('c10-run-tasks-unguarded-subscript', 'C10', ['C10.GUARDED-SUBSCRIPT', 'C01.ORDERKEYS'],
+     (LAB, 'Lab.run_tasks', 'for task in tasks if task in results}', 'for task in tasks}'), note='regression of fix 05bcbc6 (D3)')
+fire('c10-spawn-unguarded-subscript', 'C10', 'C10.GUARDED-SUBSCRIPT',
+     (PROC, 'SpawnProcessRunner._submit_task', '                if dependency_task in self.results_map\n', ''), note='regression of fix b3449b7 (D4)')
+fire('c10-child-ships-exception-only', 'C10', 'C10.EXC-TO-FAILURE',
+     (PROC, '_subprocess_target', 'except BaseException as ex:', 'except Exception as ex:'))
+fire('c10-swallow-save-failure', ['C10', 'C12'], 'C10.SUCCESS-ONLY-STORES',
+     (BASE, 'run_or_load_task', '            task._lt.cache.save(storage, task, task_result)', '            try:\n                task._lt.cache.save(storage, task, task_result)\n            except Exception:\n                logger.error("could not cache")'))
+
+# ------------------------------------------------------------------------------- C11
+fire('c11-unblock-only-on-success', 'C11', 'C11.COMPLETE-BOTH',
+     (LAB, 'TaskState.complete_task', """        for dependent in self.task_to_pending_dependents[task]:
+            self.task_to_pending_dependencies[dependent].remove(task)""", """        if result_meta is not None:
+            for dependent in self.task_to_pending_dependents[task]:
+                self.task_to_pending_dependencies[dependent].remove(task)"""))
+fire('c11-dead-marking-removed', ['C11', 'C10'], 'C11.DEAD-DETECT',
+     (PROC, 'ProcessExecutor._consume_result_queue', 'future.set_exception(TaskDiedError())', 'pass'))
+fire('c11-cancelled-not-pruned', 'C11', ['C11.PRUNE-DONE', 'C14.DEQUEUE-BEFORE-DELIVER'],
+     (PROC, 'ProcessRunner.wait', """            task = self.future_to_task.pop(future)
+            if future.cancelled:
+                continue""", """            if future.cancelled:
+                continue
+            task = self.future_to_task.pop(future)"""))
+fire('c11-loop-cond-pending-only', 'C11', 'C11.LOOP-COND',
+     (LAB, 'TaskCoordinator.run', 'while (len(state.pending_tasks) > 0) or (runner.pending_task_count() > 0):', 'while len(state.pending_tasks) > 0:'))
+fire('c11-del-without-terminal', 'C11', 'C11.FUTURE-PAIRING',
+     (PROC, 'ProcessExecutor._consume_result_queue', """                if not future.done:
+                    if isinstance(result_or_ex, BaseException):
+                        future.set_exception(result_or_ex)
+                    else:
+                        future.set_result(result_or_ex)""", """                if not future.done and not isinstance(result_or_ex, BaseException):
+                    future.set_result(result_or_ex)"""))
+fire('c11-timeout-not-zeroed', 'C11', 'C11.DRAIN-BOUNDED',
+     (PROC, 'ProcessExecutor._consume_result_queue', 'inner_timeout_seconds = 0', 'pass'))
+silent('c11-loop-cond-swapped', 'C11',
+       (LAB, 'TaskCoordinator.run', 'while (len(state.pending_tasks) > 0) or (runner.pending_task_count() > 0):', 'while runner.pending_task_count() != 0 or state.pending_tasks:'))
+
+# ------------------------------------------------------------------------------- C12 / C13
+fire('c12-rollback-removed', ['C12', 'C13', 'C14', 'C08'], 'C12.ROLLBACK-COVER',
+     (CACHE, 'BaseCache.save', """        except BaseException:
+            # Do not leave behind a partial entry that would be
+            # reported as cached but cannot be loaded.
+            storage.delete(task.cache_key)
+            raise""", """        finally:
+            pass"""), note='regression of fix 2d3377e (D7)')
+fire('c12-rollback-does-not-reraise', 'C12', 'C12.ROLLBACK-COVER',
+     (CACHE, 'BaseCache.save', "            storage.delete(task.cache_key)\n            raise", "            storage.delete(task.cache_key)"))
+fire('c12-rollback-other-key', 'C12', ['C12.ROLLBACK-COVER', 'C06.KEY-PROV'],
+     (CACHE, 'BaseCache.save', "            storage.delete(task.cache_key)\n            raise", "            storage.delete(self.KEY_PREFIX)\n            raise"))
+fire('c12-rollback-except-exception', ['C12', 'C13', 'C14'], 'C12.ROLLBACK-COVER',
+     (CACHE, 'BaseCache.save', 'except BaseException:', 'except Exception:'))
+silent('c12-rollback-bare-except', ['C12', 'C13'],
+       (CACHE, 'BaseCache.save', 'except BaseException:', 'except:'))
+
+# ------------------------------------------------------------------------------- C14
+fire('c14-return-instead-of-raise', 'C14', 'C14.HANDLER',
+     (LAB, 'TaskCoordinator.run', 'raise first_keyboard_interrupt', 'return task_results'))
+fire('c14-cancel-dropped', 'C14', 'C14.HANDLER',
+     (LAB, 'TaskCoordinator.run', 'runner.cancel()', 'pass'))
+fire('c14-stop-dropped', 'C14', 'C14.HANDLER',
+     (LAB, 'TaskCoordinator.run', 'runner.stop()', 'pass'))
+fire('c14-serial-ki-reraise-removed', 'C14', 'C14.KI-TRANSPARENT',
+     (SER, 'SerialRunner.wait', "        except KeyboardInterrupt:\n            raise\n", ""))
+fire('c14-sigign-removed', 'C14', 'C14.SIGINT-IGNORED-FIRST',
+     (PROC, 'ProcessRunner._subprocess_func', 'signal.signal(signal.SIGINT, signal.SIG_IGN)', 'pass'))
+fire('c14-sigign-after-first-put', 'C14', 'C14.SIGINT-IGNORED-FIRST',
+     (PROC, 'ProcessRunner._subprocess_func', '        signal.signal(signal.SIGINT, signal.SIG_IGN)\n', ''),
+     (PROC, 'ProcessRunner._subprocess_func', '            for dependency_task in get_direct_dependencies(task):', '            signal.signal(signal.SIGINT, signal.SIG_IGN)\n            for dependency_task in get_direct_dependencies(task):'))
+fire('c14-prune-after-yield', ['C14', 'C11'], 'C14.DEQUEUE-BEFORE-DELIVER',
+     (PROC, 'ProcessRunner.wait', 'task = self.future_to_task.pop(future)', 'task = self.future_to_task[future]'), note='regression of fix 411fa3a (D10)')
+fire('c14-consume-on-calling-thread', 'C14', 'C14.QUEUE-IN-THREAD',
+     (PROC, 'ProcessExecutor._consume_result_queue', """        consumer_thread = Thread(target=_consume)
+        consumer_thread.start()
+        consumer_thread.join()""", """        _consume()"""))
+fire('c14-close-not-in-finally', 'C14', 'C14.FINALLY-CLEANUP',
+     (LAB, 'TaskCoordinator.run', '                runner.close()\n', ''))
+fire('c14-stop-leaves-entries', 'C14', 'C14.CANCEL-STOP-COMPLETE',
+     (PROC, 'ProcessExecutor.stop', 'del self._running_id_to_future_and_process[future.id]', 'pass'))
+silent('c14-handler-logging', 'C14',
+       (LAB, 'TaskCoordinator.run', "logger.info('Terminating running tasks.')", "logger.warning('Terminating running tasks now.')"))
+
+# ------------------------------------------------------------------------------- C15
+fire('c15-enum-not-accepted', 'C15', 'C15.TYPE-TABLES',
+     (TASKS, None, 'ParamScalar: TypeAlias = None | str | bool | float | int | Enum', 'ParamScalar: TypeAlias = None | str | bool | float | int'))
+fire('c15-tuple-without-recursion', 'C15', 'C15.NORMALISE-ALL-PATHS',
+     (TASKS, 'immutable_param_value', "return tuple(immutable_param_value(f'{key}[{i}]', item) for i, item in enumerate(value))", 'return tuple(value)'))
+fire('c15-not-frozen', 'C15', 'C15.DATACLASS-ARGS',
+     (TASKS, 'task', 'dataclass(frozen=True, eq=True, order=True)', 'dataclass(frozen=False, eq=True, order=True)'))
+fire('c15-getstate-ships-context', ['C15', 'C16'], 'C15.STATE-CLEAN',
+     (TASKS, '_task__getstate__', "'_results_map': None,", "'_results_map': None, 'context': self.context,"))
+fire('c15-getstate-ships-results-map', 'C15', 'C15.STATE-CLEAN',
+     (TASKS, '_task__getstate__', "'_results_map': None,", "'_results_map': self._results_map,"))
+fire('c15-setstate-forgets-context', 'C15', 'C15.INIT-AGREE',
+     (TASKS, '_task__setstate__', "    object.__setattr__(self, 'context', None)\n", ''), note='regression of fix a0def58 (D16)')
+fire('c15-setstate-no-post-init', 'C15', 'C15.INIT-AGREE',
+     (TASKS, '_task__setstate__', "    if self._lt.orig_post_init is not None:\n        self._lt.orig_post_init(self)\n", ''), note='regression of fix a0def58 (D16)')
+fire('c15-unreserved-runtime-attr', 'C15', 'C15.RESERVED-AGREE',
+     (TASKS, '_task_post_init', "object.__setattr__(self, 'result_meta', None)", "object.__setattr__(self, 'result_meta', None)\n    object.__setattr__(self, 'started_at', None)"))
+fire('c15-setstate-not-normalising', 'C15', 'C15.SETSTATE-NORMALISES',
+     (TASKS, '_task__setstate__', 'value = immutable_param_value(key, value) if key in field_set else value', 'value = value'))
+fire('c15-mlflow-forgets-enum', 'C15', 'C15.TYPE-TABLES',
+     (BASE, 'optional_mlflow', "        elif isinstance(value, Enum):\n            mlflow.log_param(path, f'{type(value).__qualname__}.{value.name}')\n", ''))
+silent('c15-isinstance-tuple-form', ['C15', 'C02'],
+       (TASKS, 'immutable_param_value', 'if isinstance(value, list) or isinstance(value, tuple):', 'if isinstance(value, (list, tuple)):'))
+
+# ------------------------------------------------------------------------------- C16
+fire('c16-bare-multiprocessing-process', 'C16', 'C16.VIA-CONTEXT',
+     (PROC, 'ProcessExecutor._start_processes', 'self.mp_context.Process(', 'multiprocessing.Process('), note='regression of fix e66e1d0 (D1)')
+fire('c16-spawn-uses-fork-context', 'C16', 'C16.START-METHOD-TABLE',
+     (PROC, 'SpawnProcessRunner._get_mp_context', "multiprocessing.get_context('spawn')", "multiprocessing.get_context('fork')"))
+fire('c16-serial-unfiltered-context', 'C16', 'C16.FILTER-PROV',
+     (SER, 'SerialRunner.wait', 'filtered_context=task.filter_context(self.context),', 'filtered_context=self.context,'))
+fire('c16-set-context-dropped', 'C16', 'C16.FILTER-PROV',
+     (BASE, 'run_or_load_task', 'task.set_context(filtered_context)', 'pass'))
+fire('c16-spawn-name-maps-to-fork-backend', 'C16', 'C16.START-METHOD-TABLE',
+     (LAB, 'Lab.__init__', "            elif runner_backend == 'spawn':\n                runner_backend = SpawnRunnerBackend()", "            elif runner_backend == 'spawn':\n                runner_backend = ForkRunnerBackend()"))
+fire('c16-fork-memory-dropped-early', 'C16', 'C16.FORK-MEMORY',
+     (PROC, 'ForkProcessRunner._submit_task', '        return executor.submit(', '        _RUNNER_FORK_MEMORY.pop(self.uuid, None)\n        return executor.submit('))
+fire('c16-child-gets-other-thunk', 'C16', 'C16.ONE-PROCESS-PER-TASK',
+     (PROC, 'ProcessExecutor._start_processes', 'thunk = self._pending_future_to_thunk[future]', 'thunk = next(iter(self._pending_future_to_thunk.values()))'))
+
+# ------------------------------------------------------------------------------- C19
+fire('c19-no-drain-after-wait', 'C19', 'C19.DRAIN-AFTER-WAIT',
+     (PROC, 'ProcessRunner.wait', '        # Deliver the records logged by the tasks that have just finished.\n        self._consume_log_queue()\n', ''), note='regression of fix efc9d97 (D2a)')
+fire('c19-no-flush', 'C19', 'C19.FLUSH-BEFORE-RETURN',
+     (PROC, 'ProcessRunner._subprocess_func', '            sys.stdout.flush()\n            sys.stderr.flush()\n', ''), note='regression of fix d3f27d7 (D2b)')
+fire('c19-buffer-not-cleared', 'C19', 'C19.EMIT-THEN-CLEAR',
+     (UTILS, 'LoggerFileProxy.flush', '            self.bufs = []\n', ''), note='regression of fix 5fe8270 (D2c)')
+fire('c19-handlers-not-reset', 'C19', 'C19.WORKER-LOG-SETUP',
+     (PROC, 'ProcessRunner._subprocess_func', 'logger.handlers = []', 'pass'))
+fire('c19-drain-one-record', 'C19', 'C19.CONSUME-ALL',
+     (PROC, 'ProcessRunner._consume_log_queue', 'while True:', 'for _ in range(1):'))
+fire('c19-other-queue', 'C19', 'C19.SAME-QUEUE',
+     (PROC, 'ProcessRunner.submit_task', 'log_queue=self.log_queue,', 'log_queue=self.process_event_queue,'))
+silent('c19-buffer-clear-method', 'C19',
+       (UTILS, 'LoggerFileProxy.flush', 'self.bufs = []', 'self.bufs.clear()'))
+
+# ------------------------------------------------------------------------------- C20
+fire('c20-subtasks-not-enqueued', 'C20', 'C20.WORKLIST-CLOSURE',
+     (DIAG, 'TaskStructure.build', 'found_tasks += sub_tasks', 'pass'))
+fire('c20-merge-with-and', 'C20', 'C20.CARDINALITY',
+     (DIAG, 'TaskStructure.add_relationship', 'old_info.multi_cardinality or info.multi_cardinality', 'old_info.multi_cardinality and info.multi_cardinality'))
+fire('c20-cardinality-inverted', 'C20', 'C20.REL-ALL',
+     (DIAG, 'TaskStructure.build', 'multi_cardinality=(not is_task(param_value)),', 'multi_cardinality=is_task(param_value),'))
+fire('c20-first-field-only', 'C20', 'C20.WORKLIST-CLOSURE',
+     (DIAG, 'TaskStructure.build', 'for field in fields(task):', 'for field in fields(task)[:1]:'))
+fire('c20-wrong-to-type', 'C20', 'C20.REL-ALL',
+     (DIAG, 'TaskStructure.build', 'to_task_type=type(sub_task),', 'to_task_type=type(task),'))
+fire('c20-set-iteration', 'C20', 'C20.NONDET-FREE',
+     (DIAG, 'diagram_task_structure', 'for task_type in task_structure.task_type_to_rels.keys()', 'for task_type in set(task_structure.task_type_to_rels.keys())'))
+fire('c20-fields-from-annotations', 'C20', 'C20.ONE-BLOCK',
+     (DIAG, 'diagram_task_type', 'for field in fields(task_type)\n            if field', 'for field in fields(task_type)\n            if field.name in task_type.__annotations__'))
+silent('c20-extend-instead-of-iadd', 'C20',
+       (DIAG, 'TaskStructure.build', 'found_tasks += sub_tasks', 'found_tasks.extend(sub_tasks)'))
